@@ -275,7 +275,7 @@ class ZooProp(E1Prop):
     shards = 16
 
     def stacks(self, tier, seed):
-        st, missing = zoo.quick_stacks(seed)
+        st, missing = zoo.thorough_stacks(seed) if tier == "thorough" else zoo.quick_stacks(seed)
         if missing:
             raise core.InfraError(f"stack cover misses adjacent pairs {missing}")
         return st
